@@ -76,6 +76,8 @@ def c01(tier):
                  recv_spec('length-forms-4096', tags, long_frame=True, cuts=[4096] * 20, xval_stride=5),
                  recv_spec('after-earlier-connection-text', tags, family=dict(opcode=1, L=3, max_frags=3), earlier=EARLIER, cuts='bytewise'),
                  recv_spec('after-earlier-connection-binary', tags, family=dict(opcode=2, L=3, max_frags=3, ctrl=9), earlier=EARLIER)] + carry_specs(tags, 3)
+    # delivery continues while the CLIENT is closing (application close() at Ready): the server may still send anything until its own Close
+    specs.append(recv_spec('closing-state-N%d' % (4 if tier == 'quick' else 5), tags, N=4 if tier == 'quick' else 5, app_close_at_ready=True))
     specs.append(Spec('frame-step', 'checks.frame', 'run_frame_step', dict(max_chunk=3 if tier == 'quick' else 5, k_max=1 if tier == 'quick' else 2,
                                                                             opcode_list=[2, 1] if tier == 'quick' else [2, 1, 0], xval_stride=11),
                       what='INDUCTIVE STEP on the payload-read state: announced length L symbolic (7/16/63-bit, every value at once), k<=1/2 bytes gathered, '
